@@ -39,6 +39,15 @@
    fold objects: createCVIndexed on a shared set allocates new batches which only the set and the fold object hold;
    training(p) / validation(p) are pointer subsets of the fold object's set (C03_fold_object_shares_the_set,
    C03_fold_parts_are_pointers); a DataView is a pointer copy written through its index triples (model op, compared).
+   WEIGHTED CONTAINERS (C03Weighted.v; WeightedLabeledData with ids as elements and distinct weights is run next to the
+   model on every check): weight i stays attached to element i under every structural operation (the pairing theorems
+   with the weight container in the role of the label container, C03_weight_stays_with_its_element); construction with
+   one weight for all elements; sumOfWeights = sum over the weight sequence, kept / split / added by the operations as the
+   element sequence says; classWeight = per-class sums; bootstrap (the loop `element(index).weight += 1` as written, for
+   EVERY outcome of the draws): weight i = number of draws of i, sum = number of draws, data and batch structure untouched.
+   Only monitored: that bootstrap draws from all n elements (statistic over the runs with size < n, key
+   bootstrap:index-range), the distribution of the draws.  Not covered: BaseWeightedDataset::shuffle and
+   weightedInputs() for vector-valued inputs (do not compile, see the report), the weighted range constructors (do not compile).
    NOT proved (tied to the code by the correspondence run only, see DESIGN.md#C03): behaviour of binarySubProblem on batches
    that are NOT class-sorted (outside its documented precondition; the model still follows the code there and is compared);
    that Data::operator== is equality of the pointer lists (compared on every line of the sharing stream);
@@ -47,7 +56,7 @@
    (shape "()" after the V / W operations); the shape theorems do not cover toDataset.                       *)
 From Coq Require Import List Arith Bool Permutation Sorted.
 From SharkV Require Import ListAux C03Model C03Proofs C03Iter C03Class C12Model C12Proofs
-  C03ClassProofs C03BinaryProofs C03ViewProofs C03LoopProofs C03Heap C03HeapProofs C03ShareProofs C03GuardProofs.
+  C03ClassProofs C03BinaryProofs C03ViewProofs C03LoopProofs C03Heap C03HeapProofs C03ShareProofs C03GuardProofs C03Weighted C03WeightedProofs.
 Import ListNotations.
 
 Theorem C03_optimal_batch_sizes :
@@ -519,3 +528,89 @@ Example C03_heap_refusal_example :
   step 0 0 (OSplice 0 2 1) st = None /\ independent 0 st 0 = false /\
   exists st', step 0 0 (OWrite 1 2 55) st = Some st' /\ contents 0 st' 0 = [[10;11];[55]].
 Proof. cbv zeta. split; [vm_compute; reflexivity|]. split; [vm_compute; reflexivity|]. eexists. split; vm_compute; reflexivity. Qed.
+
+(* ================= WeightedUnlabeledData / WeightedLabeledData (C03Weighted.v) =================
+   A weighted container is a data container and a weight container driven in lock-step by detail::BaseWeightedDataset with
+   the same arguments: [labeled D W] with inputs = data(), labels = weights().  Weight i stays attached to element i under
+   every structural operation: the pairing theorems above (the C03_pairing theorems) with L := the weight type; collected here. *)
+Theorem C03_weight_stays_with_its_element :
+  forall D W (z : @data (D * W)),
+    combine (elems (inputs (paired z))) (elems (labels (paired z))) = elems z /\
+    (forall szs, lift2 (fun X => repartition szs) (paired z) = omap paired (repartition szs z)) /\
+    (forall b k, lift2 (fun X => split_batch b k) (paired z) = omap paired (split_batch b k z)) /\
+    (forall idx, lift2 (fun X => indexed_subset idx) (paired z) = omap paired (indexed_subset idx z)) /\
+    (forall k, match splice k (inputs (paired z)), splice k (labels (paired z)) with
+               | Some (a1, a2), Some (b1, b2) => Some (mkL a1 b1, mkL a2 b2) | _, _ => None end
+               = omap (fun p => (paired (fst p), paired (snd p))) (splice k z)) /\
+    (forall z2, mkL (append (inputs (paired z)) (inputs (paired z2))) (append (labels (paired z)) (labels (paired z2)))
+                = paired (append z z2)) /\
+    (forall dd dw idx, match reorder dd idx (inputs (paired z)), reorder dw idx (labels (paired z)) with
+                       | Some a, Some b => Some (mkL a b) | _, _ => None end
+                       = omap paired (reorder (dd, dw) idx z)).
+Proof.
+  intros D W z. split; [apply paired_elements|]. split; [intros; apply pairing_repartition|].
+  split; [intros; apply pairing_split_batch|]. split; [intros; apply pairing_indexed_subset|].
+  split; [intros; apply pairing_splice|]. split; [intros; apply pairing_append|]. intros; apply pairing_reorder.
+Qed.
+Print Assumptions C03_weight_stays_with_its_element.
+
+(* BaseWeightedDataset(data, weight): same batch structure as the data, every weight is the given one *)
+Theorem C03_uniform_weights :
+  forall D W (d : @data D) (w : W),
+    sizes (uniform_weights d w) = sizes d /\ elems (uniform_weights d w) = repeat w (nelems d).
+Proof. intros D W. exact (@uniform_weights_spec D W). Qed.
+Print Assumptions C03_uniform_weights.
+
+Theorem C03_sum_of_weights :
+  forall D (x : labeled D nat), sum_of_weights x = sum (elems (labels x)).
+Proof. intros D. exact (@sum_of_weights_spec D). Qed.
+Print Assumptions C03_sum_of_weights.
+
+(* ... kept by repartition / splitBatch / shuffling, split by splice, added by append, selected by indexedSubset *)
+Theorem C03_sum_of_weights_structural :
+  forall D (x : labeled D nat),
+  (forall szs w', repartition szs (labels x) = Some w' -> sum_of_weights (mkL (inputs x) w') = sum_of_weights x) /\
+  (forall b k w', split_batch b k (labels x) = Some w' -> sum_of_weights (mkL (inputs x) w') = sum_of_weights x) /\
+  (forall b l r, splice b (labels x) = Some (l, r) ->
+     sum_of_weights (mkL (inputs x) l) + sum_of_weights (mkL (inputs x) r) = sum_of_weights x) /\
+  (forall y : labeled D nat, sum_of_weights (mkL (append (inputs x) (inputs y)) (append (labels x) (labels y)))
+                             = sum_of_weights x + sum_of_weights y) /\
+  (forall idx w', reorder 0 idx (labels x) = Some w' -> Permutation idx (seq 0 (nelems (labels x))) ->
+     sum_of_weights (mkL (inputs x) w') = sum_of_weights x) /\
+  (forall idx w', indexed_subset idx (labels x) = Some w' ->
+     sum_of_weights (mkL (inputs x) w') = sum (map (fun i => sum (nth i (labels x) [])) idx)).
+Proof. intros D. exact (@sum_of_weights_structural D). Qed.
+Print Assumptions C03_sum_of_weights_structural.
+
+(* classWeight: one entry per class 0..max label, entry c = sum of the weights of the elements labelled c, total = all weights *)
+Theorem C03_class_weight :
+  forall ls ws, length ls = length ws -> ls <> [] ->
+    length (class_weight ls ws) = S (fold_right Nat.max 0 ls) /\
+    (forall c, nth c (class_weight ls ws) 0 = sum (map snd (filter (fun lw => fst lw =? c) (combine ls ws)))) /\
+    sum (class_weight ls ws) = sum ws.
+Proof. exact class_weight_spec. Qed.
+Print Assumptions C03_class_weight.
+
+(* bootstrap(dataset, size) for EVERY outcome of the draws (any list of positions below n): the data is the argument, the
+   weights have its batch structure, weight i = number of draws of i, the weights sum to the number of draws;
+   the order of the draws is irrelevant (the check hands the model a draw sequence with the observed counts) *)
+Theorem C03_bootstrap_counts :
+  forall D (d : @data D) draws, (forall i, In i draws -> i < nelems d) ->
+    inputs (w_bootstrap d draws) = d /\
+    sizes (labels (w_bootstrap d draws)) = sizes d /\
+    elems (labels (w_bootstrap d draws)) = map (count_eq draws) (seq 0 (nelems d)) /\
+    sum_of_weights (w_bootstrap d draws) = length draws.
+Proof. intros D. exact (@w_bootstrap_spec D). Qed.
+Print Assumptions C03_bootstrap_counts.
+
+Theorem C03_bootstrap_order_irrelevant :
+  forall D (d : @data D) draws draws', (forall i, In i draws -> i < nelems d) -> Permutation draws draws' ->
+    labels (w_bootstrap d draws) = labels (w_bootstrap d draws').
+Proof. intros D. exact (@bootstrap_order_irrelevant D). Qed.
+Print Assumptions C03_bootstrap_order_irrelevant.
+
+Example C03_weighted_example :
+  labels (w_bootstrap [[10;11;12];[13;14]] [4;0;4;2;4]) = [[1;0;1];[0;3]] /\
+  sum_of_weights (w_bootstrap [[10;11;12];[13;14]] [4;0;4;2;4]) = 5 /\
+  class_weight [0;2;0;1] [3;5;7;9] = [10;9;5] /\ uniform_weights [[10;11;12];[13;14]] 7 = [[7;7;7];[7;7]].
+Proof. vm_compute. repeat split; reflexivity. Qed.
